@@ -62,3 +62,18 @@ def has_title(relpath):
     with open(os.path.join(REPO, relpath), "r", encoding="utf-8") as f:
         doc = ast.get_docstring(ast.parse(f.read()))
     return doc is not None and find_title_and_description(doc) is not None
+
+
+def has_title_independent(relpath):
+    """documented module, read without the repo's docstring parser: the module docstring has a non-empty line followed by a line made
+    only of '=' or only of '-' characters (an rST title underline of any length)"""
+    with open(os.path.join(REPO, relpath), "r", encoding="utf-8") as f:
+        doc = ast.get_docstring(ast.parse(f.read()))
+    if not doc:
+        return False
+    ls = doc.splitlines()
+    for i in range(1, len(ls)):
+        t = ls[i].strip()
+        if t and (set(t) == {"="} or set(t) == {"-"}) and ls[i - 1].strip():
+            return True
+    return False
